@@ -363,14 +363,23 @@ Qed.
 Lemma finalize_at_most_once h : NoDup (fin_ids (log (run h gc_init))).
 Proof. apply FDI_fin_NoDup, FDI_run; [apply WF_init | apply FDI_init]. Qed.
 
+Lemma tot_destroy_loop n : forall g, WF g -> le_tot g (destroy_loop n g) /\ WF (destroy_loop n g).
+Proof.
+  induction n as [|n IH]; intros g W; cbn [destroy_loop]; [split; [apply le_tot_refl | auto]|].
+  pose proof (tot_sweep g (wf_nodup _ W)) as T. pose proof (WF_sweep g W) as W1.
+  destruct (items (sweep g)) eqn:E; [split; auto|].
+  destruct (IH (sweep g) W1) as [T2 W2]. split; auto. eapply le_tot_trans; eauto.
+Qed.
+
 Lemma finalize_at_most_once_exit h : NoDup (fin_ids (log (destroy (run h gc_init)))).
 Proof.
   apply FDI_fin_NoDup. pose proof (FDI_run h gc_init WF_init FDI_init) as I.
   pose proof (WF_run h gc_init WF_init) as W.
   unfold destroy.
-  assert (L : le_tot (run h gc_init) (sweep (set_collecting true (run h gc_init)))).
-  { apply (tot_sweep (set_collecting true (run h gc_init))). apply W. }
+  destruct (tot_destroy_loop DESTROY_SWEEPS (set_collecting true (run h gc_init))) as [L _].
+  { now apply WF_set_collecting. }
   eapply FDI_le_tot; [|exact I]. destruct L as [A B]. split; [|exact B].
   intros k. specialize (A k). unfold tot in *. cbn [items log dropped set_items set_roots set_collecting] in *.
-  pose proof (fcnt_nonneg (items (sweep (set_collecting true (run h gc_init)))) k). change (fcnt [] k) with 0. lia.
+  pose proof (fcnt_nonneg (items (destroy_loop DESTROY_SWEEPS (set_collecting true (run h gc_init)))) k).
+  change (fcnt [] k) with 0. lia.
 Qed.
